@@ -300,6 +300,65 @@ TRUNCATION_TEXTS = [
 ]
 
 
+# every token kind with an escape or a number in it: non-ASCII characters are inserted at every offset
+ESCAPE_TEXT = ('rule e_1 : t {\n  meta:\n    m = "a\\x41\\n"\n  strings:\n    $a = "a\\x41\\n\\t\\\\\\"b" xor(0x01-0x1F)\n'
+               '    $b = /\\x41[\\x00-\\x1f\\d]\\.\\/a{2,3}\\bz\\x7e/\n    $c = { 4A ?? [2-3] ~0F ( 01 | 02 ) }\n'
+               '  condition:\n    $a and 0x1F + 1KB > 2MB \\ 3 and 1.5 < 2.0 and $b and #c == 1 and "\\x41" matches /[\\x41-\\x5a]\\x41/\n}\n')
+NON_ASCII = ["\u00e9", "\u20ac", "\U0001F600"]      # 2, 3 and 4 bytes of UTF-8
+
+
+def sessions():
+    """several texts added to ONE compiler, some refused, then finalize + scan: [(name, steps, expect_steps,
+    expect_matched)]; a step is (text, ns)"""
+    defs = "rule a { condition: true }\nrule a2 { condition: true }\nrule b { condition: true }\n"
+    deep = "rule z { condition: %strue%s }" % ("(" * 60, ")" * 60)
+    fails = [
+        ("dup_rule", "rule a { condition: false }"),
+        ("dup_rule_global", "global rule a { condition: true }"),
+        ("dup_rule_private", "private rule b { condition: false }"),
+        ("dup_after_ok", "rule n1 { condition: true }\nrule a { condition: false }\nrule n3 { condition: true }"),
+        ("dup_in_text", "rule n1 { condition: true }\nrule n1 { condition: true }"),
+        ("dup_string", 'rule z { strings: $s = "x" $s = "y" condition: any of them }'),
+        ("unknown_ident", "rule z { condition: nosuch }"),
+        ("self_ref", "rule z { condition: z }"),
+        ("syntax", "rule z { condition: "),
+        ("too_deep", deep),
+        ("unknown_import", 'import "nosuchmodule"\nrule z { condition: true }'),
+        ("unused_string", 'rule z { strings: $s = "x" condition: true }'),
+        ("bad_regex", "rule z { strings: $s = /a{2,1}/ condition: $s }"),
+        ("wildcard_then_name", "rule w { condition: any of (a*) }\nrule a3 { condition: true }"),
+        ("missing_include", 'rule n1 { condition: true }\ninclude "nosuch_c08.yar"'),
+    ]
+    refs = [
+        ("ref_a", "rule c { condition: a }", True),
+        ("ref_a_b", "rule c { condition: a and b and a2 }", True),
+        ("ref_set", "rule c { condition: any of (a*) }", True),
+        ("ref_count", "rule c { condition: 2 of (a, b) }", True),
+        ("ref_all_set", "rule c { condition: all of (a*) and b }", True),
+        ("ref_rejected", "rule c { condition: z }", False),
+    ]
+    out = []
+    for fname, ftext in fails:
+        for rname, rtext, ok in refs:
+            for ns in (None, "ns1"):
+                steps = [(defs, ns), (ftext, ns), (rtext, ns)]
+                out.append(("%s/%s/%s" % (fname, rname, ns or "default"), steps, ["ok", "err", "ok" if ok else "err"],
+                            [[ns or "default", "c"]] if ok else []))
+        # the failure happens in another namespace: nothing of it may be seen from ours
+        out.append((fname + "/other_ns", [(defs, None), (defs, "ns2"), (ftext, "ns2"), ("rule c { condition: a and b }", None),
+                                           ("rule d { condition: a and b }", "ns2")],
+                    ["ok", "ok", "err", "ok", None], [["default", "c"]]))
+        # twice the same refusal, then a rule using the names, then more definitions and another user
+        out.append((fname + "/twice", [(defs, None), (ftext, None), (ftext, None), ("rule c { condition: a }", None),
+                                        ("rule e1 { condition: c and a2 }", None)], ["ok", "err", "err", "ok", "ok"],
+                    [["default", "c"], ["default", "e1"]]))
+    # a refusal before anything is defined, definitions afterwards
+    for fname, ftext in fails:
+        out.append((fname + "/first", [(ftext, None), ("rule q { condition: true }\nrule c { condition: q }", None)],
+                    [None, "ok"], [["default", "c"]]))
+    return out
+
+
 NEST_KINDS = ["paren", "not", "neg", "bitnot", "defined", "for", "uint", "intparen", "subscript", "regex_group",
               "regex_alt", "regex_cond", "hex_alt", "hex_alt2"]
 EXPR_KINDS = {"paren", "not", "neg", "bitnot", "defined", "for", "uint", "intparen", "subscript"}
@@ -506,6 +565,19 @@ class C08(Prop):
                 pre = t[:cut].encode()
                 for tail in (b" ", b"\n\t ", b" // c", b" /* c */ ", b" /* open"):
                     out.append(self.mk("trunc_ws:%d" % ti, pre + tail, {}))
+        # non-ASCII characters at every offset: all three in the escape text, one (rotating) in the reference texts
+        for ti, t in enumerate([ESCAPE_TEXT] + TRUNCATION_TEXTS[:2]):
+            for off in range(len(t) + 1):
+                for ci, ch in enumerate(NON_ASCII):
+                    if ti == 0 or ci == off % 3:
+                        out.append(self.mk("utf8ins:%d" % ti, t[:off] + ch + t[off:], {}))
+        out.append(self.mk("utf8ins:ref", ESCAPE_TEXT, {}, "ok"))
+        # sessions on one compiler with refused texts in the middle
+        for nm, steps, exp, matched in sessions():
+            c = {"kind": "session:" + nm.split("/")[0], "text_hex": "", "expect": None,
+                 "steps": [{"text_hex": t.encode().hex(), "ns": ns} for t, ns in steps],
+                 "expect_steps": exp, "expect_matched": matched, "session": nm}
+            out.append(c)
         for kind in FLAT_KINDS:
             for m in (10, 300, 3000):
                 # chains of binary operators build a left-deep tree: beyond max_condition_depth they are an error
@@ -573,7 +645,10 @@ class C08(Prop):
             ctx.bind_checked = self.build_checked()
         hc = []
         for c in cases:
-            h = {k: v for k, v in c.items() if k not in ("kind", "expect", "parse_expect")}
+            h = {k: v for k, v in c.items() if k not in ("kind", "expect", "parse_expect", "expect_steps",
+                                                          "expect_matched", "session")}
+            if "steps" in h:
+                h.pop("text_hex", None)
             h.setdefault("stack_kb", self.stack_kb(c))
             h.setdefault("wall_s", 20)
             hc.append(h)
@@ -630,6 +705,18 @@ class C08(Prop):
             return "an error does not render"
         if o["compile"] == "ok" and o["scan"] != "ok":
             return "accepted rule set does not scan: " + o["scan"]
+        if o["scan"].startswith("err"):
+            return "the finalized scanner does not scan: " + o["scan"]
+        if "steps" in case:
+            got = o.get("steps", [])
+            for i, e in enumerate(case.get("expect_steps", [])):
+                if e and (i >= len(got) or (got[i] == "ok") != (e == "ok")):
+                    return "session %s: step %d expected %s, got %s" % (case.get("session"), i, e,
+                                                                        got[i][:60] if i < len(got) else "nothing")
+            for m in case.get("expect_matched", []):
+                if m not in o.get("matched", []):
+                    return "session %s: rule %s should match after the refused texts" % (case.get("session"), m)
+            return None
         if case.get("expect") == "ok" and o["compile"] != "ok":
             return "text valid by construction rejected: " + o["compile"]
         if case.get("expect") == "err" and o["compile"] == "ok":
